@@ -145,10 +145,14 @@ def peTree (bps : Nat) : (fuel : Nat) → List Bool → Option PEOut
       | none => none
       | some lower => some (treeCombine bps per lower)
 
-/-- `priorityEncoderTree(in, registerStep = true, bps)`: every level that is not the flat base case ends in `out = reg(out)`
-(OneHot.cpp:115-116) — a plain register, so the level's output in cycle `t` is what it computed from its lower level in cycle
-`t-1`.  `hist s` = the input word in cycle `s`.  (Power-on contents are not modelled: `t - 1` saturates at 0; the output is
-meaningful for `t ≥` longest `peTreeDepth`, when every register on every path has been loaded.) -/
+/-- `zext(x, per)` of a chunk: zeros appended at the top -/
+def padTo (per : Nat) (l : List Bool) : List Bool := l ++ List.replicate (per - l.length) false
+
+/-- `priorityEncoderTree(in, registerStep = true, bps)` (OneHot.cpp:82-122): every chunk is zero-extended to `inBitsPerStep` bits
+before the recursive call (so that all chunks recurse equally deep), and every level that is not the flat base case ends in
+`out = reg(out)` — a plain register, so the level's output in cycle `t` is what it computed from its lower level in cycle `t-1`.
+`hist s` = the input word in cycle `s`.  (Power-on contents are not modelled: `t - 1` saturates at 0; the output is meaningful for
+`t ≥ peTreeRegDepth`, when every register has been loaded.) -/
 def peTreeReg (bps : Nat) : (fuel : Nat) → (hist : Nat → List Bool) → (t : Nat) → Option PEOut
   | 0, _, _ => none
   | fuel+1, hist, t =>
@@ -158,25 +162,17 @@ def peTreeReg (bps : Nat) : (fuel : Nat) → (hist : Nat → List Bool) → (t :
     if per ≤ 1 then some (priorityEncoder (hist t))
     else
       let m := (chunks per n (hist t)).length
-      match mapOpt (fun i => peTreeReg bps fuel (fun s => (chunks per n (hist s)).getD i []) (t - 1)) (List.range m) with
+      match mapOpt (fun i => peTreeReg bps fuel (fun s => padTo per ((chunks per n (hist s)).getD i [])) (t - 1)) (List.range m) with
       | none => none
       | some lower => some (treeCombine bps per lower)
 
-/-- number of registers on the longest / shortest path through the registered tree for an `n`-bit input: all chunks have
-`per` bits except possibly a shorter last one -/
-def peTreeDepth (bps : Nat) (longest : Bool) : (fuel : Nat) → (n : Nat) → Nat
+/-- number of register levels (= latency in clock cycles) of the registered tree for an `n`-bit input: all chunks have `per` bits -/
+def peTreeRegDepth (bps : Nat) : (fuel : Nat) → (n : Nat) → Nat
   | 0, _ => 0
   | fuel+1, n =>
     let stepBits := 2 ^ bps
     let per := nextPow2 ((n + stepBits - 1) / stepBits)
-    if per ≤ 1 then 0
-    else
-      let full := peTreeDepth bps longest fuel per
-      let rest := n % per
-      if rest = 0 then 1 + full
-      else
-        let last := peTreeDepth bps longest fuel rest
-        1 + (if longest then max full last else min full last)
+    if per ≤ 1 then 0 else 1 + peTreeRegDepth bps fuel per
 
 /-- `countLeadingZeros` (OneHot.cpp:58-67): `UInt ret = in.size(); for i: IF(in[i]) ret = in.size() - i - 1;` -/
 def clzGo (n : Nat) : List Bool → Nat → Nat → Nat
@@ -215,26 +211,25 @@ def grayDecode (w val : Nat) : Option Nat :=
 
 /-! ## min / max (math.h:41-55): `ret = a; IF(a > b) ret = b;` — operands of different width are rejected
 
-For `SInt` the frontend's comparison is `gt(l, r) = (r - l).sign()`, `lt(l, r) = (l - r).sign()`
-(frontend/SignalCompareOp.cpp:40-45): a `w`-bit subtraction whose sign bit is the result — it overflows when the
-operands are more than `2^(w-1)` apart.  The model follows the code. -/
+For `SInt` the frontend's comparison is `lt(l, r) = (sext(l, w+1) - sext(r, w+1)).sign()`, `gt(l, r) = lt(r, l)`
+(frontend/SignalCompareOp.cpp:40-49): the subtraction is done in one more bit than the operands, its sign bit is the result. -/
 def minU (a b : Nat) : Nat := if a > b then b else a
 def maxU (a b : Nat) : Nat := if a < b then b else a
-/-- sign bit of the `w`-bit difference `x - y` -/
-def subSign (w x y : Nat) : Bool := ((x + 2 ^ w - y) % 2 ^ w).testBit (w - 1)
-def minS (w a b : Nat) : Nat := if subSign w b a then b else a     -- a > b  :=  (b - a).sign()
-def maxS (w a b : Nat) : Nat := if subSign w a b then b else a     -- a < b  :=  (a - b).sign()
+/-- `sext(x, w+1)` of a `w`-bit word -/
+def sext1 (w x : Nat) : Nat := if w ≠ 0 ∧ x.testBit (w - 1) then x + 2 ^ w else x
+/-- `lt(x, y)` on `SInt`: sign bit (bit `w`) of the `(w+1)`-bit difference of the sign-extended operands -/
+def ltS (w x y : Nat) : Bool := ((sext1 w x + 2 ^ (w + 1) - sext1 w y) % 2 ^ (w + 1)).testBit w
+def minS (w a b : Nat) : Nat := if ltS w b a then b else a     -- a > b  :=  lt(b, a)
+def maxS (w a b : Nat) : Nat := if ltS w a b then b else a     -- a < b
 
-/-! ## biggestPowerOfTwo (math.cpp:23-31)
+/-! ## biggestPowerOfTwo (math.cpp:23-32)
 
-`for i < w: UInt candidate = 1 << i; IF(input[i]) result = zext(candidate);` — `1 << i` is a C++ `int`:
-for `i = 31` it is negative and the `UInt` constructor rejects it, so widths ≥ 32 throw at construction. -/
+`for i < w: UInt candidate = ConstUInt(0, w); candidate[i] = '1'; IF(input[i]) result = candidate;` -/
 def bptGo (v : Nat) : Nat → Nat → Nat
   | 0, res => res
   | k+1, res => let r := bptGo v k res; if v.testBit k then 2 ^ k else r
 
-def biggestPowerOfTwo (w v : Nat) : Option Nat :=
-  if w ≥ 32 then none else some (bptGo v w 0)
+def biggestPowerOfTwo (w v : Nat) : Nat := bptGo v w 0
 
 /-! ## longDivision (math.cpp:34-72) -/
 
@@ -371,11 +366,16 @@ def counterCfgOfWidth (w : Nat) (autoInc : Bool) : CounterCfg := ⟨w, true, aut
 /-- `(end - 1).lower(counterW)` -/
 def endM1 (w end_ : Nat) : Nat := (end_ + 2 ^ w - 1) % 2 ^ w
 
-/-- `counterUpDown` (Counter.cpp:119-133): `IF(inc) IF(!isLast) ctr.inc(); IF(dec) IF(!isFirst) ctr.dec(); IF(reset) ctr.reset();` -/
+/-- `counterUpDown` (Counter.cpp:118-134):
+`IF(inc & !dec) IF(!ctr.isLast()) ctr.inc(); IF(dec & !inc) IF(!ctr.isFirst()) ctr.dec(); IF(reset) ctr.reset();` -/
 def counterUpDownStep (w resetValue v : Nat) (inc dec reset : Bool) : CounterOut :=
   let e := endM1 w (2 ^ w)
   counterStep (counterCfgOfWidth w false) v
-    ⟨inc && !(v == e), dec && !(v == 0), reset, resetValue % 2 ^ w, e⟩
+    ⟨inc && !dec && !(v == e), dec && !inc && !(v == 0), reset, resetValue % 2 ^ w, e⟩
+
+/-- register value of `counterUpDown` after a history of (increment, decrement, reset) cycles -/
+def counterUpDownRun (w rv v : Nat) (ops : List (Bool × Bool × Bool)) : Nat :=
+  ops.foldl (fun v o => (counterUpDownStep w rv v o.1 o.2.1 o.2.2).next) v
 
 /-! ## CRC (crc.cpp:88-134) -/
 
